@@ -88,6 +88,11 @@ def c19Line (o : C19St) (line : String) : C19St :=
           let msubj := match m.subj with | some h => toString h.height | none => "-"
           let kind := s!"{if need then "init" else if isRecent then "recent" else "stale"}-{if mres == "err" then "err" else "ok"}"
           let o := { o with kinds := if o.kinds.contains kind then o.kinds else o.kinds ++ [kind] }
+          -- a refused soft-failing head may have promoted verified intermediates (C15); Head() then reports the
+          -- subjective head as it is afterwards (never an older snapshot): follow the implementation's `subj` there
+          let mres := match p2, subjS.toNat?, m.subj with
+            | .soft h false, some si, some ms => if !need && !isRecent && ms.height ≤ si && si < h.height then subjS else mres
+            | _, _, _ => mres
           if mres != res then o.flag (.corr "head.result" mres res)
           else if renderReqs m.reqs != reqs then o.flag (.corr "head.requests" (renderReqs m.reqs) reqs)
           else if msubj != subjS then
@@ -96,7 +101,7 @@ def c19Line (o : C19St) (line : String) : C19St :=
             match p2, subjS.toNat?, m.subj with
             | .soft h false, some si, some ms =>
               if !need && !isRecent && ms.height ≤ si && si < h.height then
-                { o with subj := some (o.hdr si), lastRes := match m.result with | some r => max o.lastRes r.height | none => o.lastRes }
+                { o with subj := some (o.hdr si), lastRes := max o.lastRes si }
               else o.flag (.corr "head.subjective" msubj subjS)
             | _, _, _ => o.flag (.corr "head.subjective" msubj subjS)
           else { o with subj := m.subj, lastRes := match m.result with | some h => max o.lastRes h.height | none => o.lastRes }
@@ -114,17 +119,40 @@ def c19Finish (o : C19St) : Verdict :=
 def evalC19HeadRace (ins outs : List String) : Verdict :=
   match kvNat? ins "store", kvNat? ins "extra", kv? outs "head", kv? outs "arrive", kvNat? outs "subj", kv? outs "pending", kv? outs "stale" with
   | some st, some extra, some head, some arrive, some subj, some pending, some stale =>
-    let top := min (st + 1 + extra) 60
+    let before := (kvNat? ins "before").getD 1
+    let top := min (st + before + extra) 60
     if arrive != "ok" then .prop "c03_valid_gossip_accepted" s!"arrive={arrive}" else
-    if head != toString (st + 1) then .prop "c19_head_result" s!"head={head}" else
+    -- the in-flight caller gets at least what gossip had already made the subjective head when it was answered
+    if !(head.toNat?.any (fun h => st + before ≤ h && h ≤ top)) then .prop "c19_head_result" s!"head={head}, expected {st + before}..{top}" else
     -- (the pending ranges are internal: reported in the line for diagnosis, not judged)
     if subj != top then .prop "c19_subjective_head_is_newest" s!"Head()={subj} newest stored={top} pending={pending}" else
     if stale != "refuse" then .prop "c03_stale_gossip_refused" s!"a stale header below the store head was accepted" else
     .ok "headrace"
   | _, _, _, _, _, _, _ => .bad "C19 headrace"
 
+/-- A's request in flight, B already served the tip: A's (later) result must not be lower -/
+def evalC19HeadStale (ins outs : List String) : Verdict :=
+  match kvNat? ins "store", kv? ins "answer", kv? outs "arrive", kv? outs "b", kv? outs "a" with
+  | some st, some answer, some "ok", some b, some a =>
+    match b.toNat?, a.toNat? with
+    | some bh, some ah =>
+      if ah < bh then .prop "c19_monotone" s!"Head() returned {bh}, and afterwards {ah} to the caller whose request was still in flight" else
+      -- correspondence with `headCallInflight` (theorem c19_monotone_inflight)
+      let ans : Option PeerAns := match answer.splitOn ":" with
+        | ["fail"] => some .fail
+        | ["ok", h] => h.toNat?.map fun h => .ok ⟨h, 0⟩
+        | _ => none
+      match ans with
+      | none => .bad "C19 headstale answer"
+      | some an =>
+        let m := headCallInflight ⟨st, 0⟩ ⟨bh, 0⟩ an
+        if m.height != ah then .corr "headstale" (toString m.height) a else .ok "headstale"
+    | _, _ => .prop "c19_head_result" s!"b={b} a={a}"
+  | _, _, _, _, _ => .bad "C19 headstale"
+
 def evalC19Flight (ins outs : List String) : Verdict :=
   if kv? ins "kind" == some "headrace" then evalC19HeadRace ins outs else
+  if kv? ins "kind" == some "headstale" then evalC19HeadStale ins outs else
   match kvNat? ins "n", kvNat? outs "reqs", kv? outs "results" with
   | some n, some reqs, some results =>
     let rs := results.splitOn ","
